@@ -28,7 +28,13 @@ KW = ["$ref", "additionalItems", "additionalProperties", "allOf", "anyOf", "cons
       "required", "type", "uniqueItems", "id", "$id", "definitions", "default", "$schema"]
 REFS = ["#", "#/definitions/a", "#/nope", "http://unresolvable.invalid/x", "", "#/definitions/a/b", "http://[",
         "a b", "#/%zz", "#~2", "http://localhost:port/item.json", "file:///nonexistent/verif-x.json", "urn:x:y",
-        "mailto:a@b"]
+        "mailto:a@b",
+        # pointers that walk into array-valued keywords of the enclosing document (empty, negative, padded,
+        # past-the-end and well-formed tokens); the wrap positions items/0, allOf/0, anyOf/1, oneOf/0, type/0,
+        # disallow/0 and extends/0 put such arrays into the root document
+        "#/items/", "#/items//type", "#/items/0", "#/items/-1", "#/items/00", "#/items/1", "#/items/-",
+        "#/allOf/", "#/allOf/0/", "#/anyOf/0", "#/anyOf//", "#/anyOf/1/", "#/oneOf/", "#/oneOf/1", "#/type/",
+        "#/type/0/", "#/disallow/", "#/extends/", "#/extends/1", "#/properties/x/", "#/enum/", "#//", "#/"]
 # a reference to the draft's own bundled metaschema is in the domain (its target is a valid schema of the
 # draft); a reference to another draft's metaschema is not (the target is not a schema of this draft)
 OWN_META_REFS = {
@@ -318,6 +324,156 @@ def run_one(d, S, x, entry):
     return None
 
 
+# ---- reuse of one validator object (histories) ------------------------------
+ROOT_IDS = [None, "http://h.invalid/root.json"]
+SUB_IDS = ["http://[", "//[", "#frag", "sub/", "http://h.invalid/other.json", "urn:x:y", "http://a]b/", "?q", ""]
+REUSE_REFS = ["#/definitions/a", "def.json#/x", "#/nope", "#frag", "http://h.invalid/other.json#/definitions/a"]
+REUSE_INSTANCES = [{}, {"x": 1}, {"x": {"y": 1}}, {"r": "s"}, {"x": {"y": 1}, "r": "s"}, {"r": 1, "x": 1}]
+REUSE_OPS = ("is_valid", "iter_errors", "iter_errors-take1", "validate", "module_validate")
+
+
+def reuse_schemas(d):
+    idk = "id" if d in (3, 4) else "$id"
+    out = []
+    for rid in ROOT_IDS:
+        for sid in SUB_IDS:
+            for nest in (False, True):
+                for ref in REUSE_REFS:
+                    bad = {idk: sid, "type": "string"}
+                    if nest:
+                        sub = {idk: "http://h.invalid/a/", "properties": {"y": bad}}
+                    else:
+                        sub = dict(bad, properties={"y": {"type": "string"}})
+                    S = {"definitions": {"a": {"type": "integer"}},
+                         "properties": {"x": sub, "r": {"$ref": ref}}}
+                    if rid:
+                        S[idk] = rid
+                    out.append(S)
+    return out
+
+
+def reuse_call(v, d, S, op, x):
+    if op == "is_valid":
+        v.is_valid(x)
+    elif op == "iter_errors":
+        list(v.iter_errors(x))
+    elif op == "iter_errors-take1":
+        it = v.iter_errors(x)
+        next(it, None)
+        del it
+    elif op == "validate":
+        try:
+            v.validate(x)
+        except exceptions.ValidationError:
+            pass
+    else:
+        try:
+            jsonschema.validate(x, S, cls=_e1.CLS[d])
+        except exceptions.ValidationError:
+            pass
+
+
+def run_history(d, S, hist):
+    """One validator object, the calls of `hist` in order; None or (index, kind, site) of the first undocumented escape."""
+    v = _e1.CLS[d](S)
+    for i, (op, xi) in enumerate(hist):
+        signal.setitimer(signal.ITIMER_REAL, 5.0)
+        try:
+            reuse_call(v, d, S, op, REUSE_INSTANCES[xi])
+        except exceptions.RefResolutionError:
+            pass
+        except exceptions.UnknownType:
+            if d != 3:
+                return (i, "UnknownType", "validators.is_type")
+        except Hang:
+            return (i, "Hang", "5s")
+        except BaseException as e:
+            return (i, type(e).__name__, site(e))
+        finally:
+            signal.setitimer(signal.ITIMER_REAL, 0)
+    return None
+
+
+def run_reuse(unit, ctx):
+    d, _, shard, n = unit
+    signal.signal(signal.SIGALRM, _alarm)
+    schemas_ = [S for S in reuse_schemas(d) if ok_schema(d, S)]
+    ops = [(op, xi) for op in REUSE_OPS for xi in range(len(REUSE_INSTANCES))]
+    depth = 3 if ctx.thorough else 2
+    ev = nsch = 0
+    viol, outcomes, samples = [], {}, []
+    for i in range(shard, len(schemas_), n):
+        S = schemas_[i]
+        nsch += 1
+        for L in range(1, depth + 1):
+            for hist in itertools.product(ops, repeat=L):
+                if L == 3 and hist[0][0] in ("module_validate",):
+                    continue        # the module-level function builds its own validator: no state to carry
+                ev += 1
+                r = run_history(d, S, hist)
+                key = "ok" if r is None else r[1]
+                outcomes[key] = outcomes.get(key, 0) + 1
+                if r is not None:
+                    viol.append({"signature": "C03|reuse|%s|%s" % (r[1], r[2]), "size": len(str(S)) + 40 * (r[0] + 1),
+                                 "case": {"kind": "reuse", "draft": d, "schema": S,
+                                          "history": [[op, REUSE_INSTANCES[xi]] for op, xi in hist[:r[0] + 1]]},
+                                 "detail": {"exception": r[1], "where": r[2], "failing_call": r[0]}})
+        if not samples:
+            samples.append({"kind": "reuse", "draft": d, "schema": S, "history": [[op, REUSE_INSTANCES[xi]] for op, xi in ops[:2]]})
+    return {"evaluations": ev, "nontrivial": ev, "violations": viol, "samples": samples, "outcomes": outcomes,
+            "counters": {"reuse_schemas_run": nsch, "reuse_histories": ev}}
+
+
+# ---- several errors at once through every entry point (best_match included) --
+MULTI_SUBS = [False, True, {"type": "string"}, {"minimum": 5}, {"required": ["q"]}, {"enum": []}, {"not": {}},
+              {"anyOf": [False, {"type": "string"}]}, {"oneOf": [{"type": "integer"}, {"minimum": 0}]},
+              {"type": ["string", "null"]}, {"items": False}, {"additionalProperties": False},
+              {"const": None}, {"maxLength": 0}, {"format": "ipv4"}, {"dependencies": {"a": ["zz"]}}]
+MULTI_INSTANCES = [1, "a", None, [1], {"a": 1}, {}, [], 7.5, [1, "a"], {"a": 1, "b": 2}]
+MULTI_POS = [
+    ("properties", lambda a, b: {"properties": {"a": a, "b": b}}, lambda x: {"a": x, "b": x}),
+    ("items-array", lambda a, b: {"items": [a, b]}, lambda x: [x, x]),
+    ("anyOf", lambda a, b: {"anyOf": [a, b]}, lambda x: x),
+    ("allOf", lambda a, b: {"allOf": [a, b]}, lambda x: x),
+    ("oneOf", lambda a, b: {"oneOf": [a, b]}, lambda x: x),
+    ("siblings", lambda a, b: {"items": a, "additionalProperties": b, "not": {"anyOf": [a, b]}}, lambda x: x),
+    ("extends", lambda a, b: {"extends": [a, b]}, lambda x: x),
+    ("type-union", lambda a, b: {"type": [a, b]}, lambda x: x),
+    ("nested-anyOf", lambda a, b: {"properties": {"a": {"anyOf": [a, b]}, "b": b}}, lambda x: {"a": x, "b": x}),
+]
+
+
+def run_multi(unit, ctx):
+    d, _, shard, n = unit
+    signal.signal(signal.SIGALRM, _alarm)
+    ev = nsch = 0
+    viol, outcomes, samples = [], {}, []
+    combos = [(pn, mk, wi, a, b) for pn, mk, wi in MULTI_POS for a in MULTI_SUBS for b in MULTI_SUBS]
+    for i in range(shard, len(combos), n):
+        pn, mk, wi, a, b = combos[i]
+        S = mk(a, b)
+        if not ok_schema(d, S):
+            continue
+        nsch += 1
+        for x0 in MULTI_INSTANCES:
+            x = wi(x0)
+            for entry in ENTRY:
+                if entry.endswith("FormatChecker") and "format" not in json.dumps(S):
+                    continue
+                ev += 1
+                r = run_one(d, S, x, entry)
+                key = "ok" if r is None else r[0]
+                outcomes[key] = outcomes.get(key, 0) + 1
+                if r is not None:
+                    viol.append({"signature": "C03|%s|%s" % r, "size": len(str(S)) + len(str(x)[:50]),
+                                 "case": {"draft": d, "schema": S, "instance": x, "entry": entry},
+                                 "detail": {"exception": r[0], "where": r[1], "position": "several-errors/" + pn}})
+        if not samples:
+            samples.append({"draft": d, "schema": S, "instance": wi(MULTI_INSTANCES[0]), "entries": list(ENTRY)})
+    return {"evaluations": ev, "nontrivial": ev, "violations": viol, "samples": samples, "outcomes": outcomes,
+            "counters": {"multi_error_schemas_run": nsch}}
+
+
 def plan(ctx):
     units = []
     sizes = {}
@@ -335,6 +491,14 @@ def plan(ctx):
         for d in _e1.DRAFTS:
             sizes["hostile_pairs_d%d" % d] = len(pair_schemas(d))
             units += [(d, "pairs", i, 32) for i in range(32)]
+    for d in _e1.DRAFTS:
+        sizes["reuse_schemas_d%d" % d] = len(reuse_schemas(d))
+        nr = 48 if ctx.thorough else 8
+        units += [(d, "reuse", i, nr) for i in range(nr)]
+        units += [(d, "multi", i, 4) for i in range(4)]
+    sizes["reuse_ops"] = len(REUSE_OPS) * len(REUSE_INSTANCES)
+    sizes["reuse_depth"] = 3 if ctx.thorough else 2
+    sizes["multi_error_combinations"] = len(MULTI_POS) * len(MULTI_SUBS) ** 2
     return {
         "units": units,
         "rule": ("(thorough tier also: all ordered pairs of accepted hostile singles, <= 5 values per keyword, "
@@ -343,7 +507,12 @@ def plan(ctx):
                  "products over W, kept iff the draft's real check_schema accepts it and its regexes compile; "
                  "each alone (through is_valid, list(iter_errors), validate, jsonschema.validate, and iter_errors "
                  "with FormatChecker()) and wrapped at every subschema position (through list(iter_errors)), "
-                 "x every instance of U+ (routed into the wrapped position); distinct by construction; "
+                 "x every instance of U+ (routed into the wrapped position); REUSE: schemas with a root id (or none), a "
+                 "subschema id (malformed, fragment-only, relative, absolute; directly or below another id) and a "
+                 "$ref sibling, on ONE validator object every sequence of <= depth calls (entry point x instance), "
+                 "every call may only end in a documented way; SEVERAL ERRORS: every ordered pair of small "
+                 "subschemas (false included) in 9 two-slot positions x 10 instances through every entry point "
+                 "(best_match sees ties between errors of different origin); distinct by construction; "
                  "non-trivial = every execution (each is a distinct accepted-schema/instance/entry-point triple)"),
         "bounds": dict(sizes, W=len(W), uplus=len(U), tier=ctx.tier),
         "assumptions": ["watchdog of 5 s per execution stands for 'hangs'",
@@ -379,6 +548,10 @@ def run_pairs(unit, ctx):
 def run_unit(unit, ctx):
     if unit[1] == "pairs":
         return run_pairs(unit, ctx)
+    if unit[1] == "reuse":
+        return run_reuse(unit, ctx)
+    if unit[1] == "multi":
+        return run_multi(unit, ctx)
     d, wname, shard, n = unit
     signal.signal(signal.SIGALRM, _alarm)
     U = uplus(ctx.tier)
@@ -420,5 +593,21 @@ def run_unit(unit, ctx):
 
 def replay(case, ctx):
     signal.signal(signal.SIGALRM, _alarm)
+    if case.get("kind") == "reuse":
+        d, S = case["draft"], case["schema"]
+        v = _e1.CLS[d](S)
+        obs = None
+        for i, (op, x) in enumerate(case["history"]):
+            try:
+                reuse_call(v, d, S, op, x)
+            except exceptions.RefResolutionError:
+                pass
+            except exceptions.UnknownType:
+                if d != 3:
+                    obs = (i, "UnknownType")
+            except BaseException as e:
+                obs = (i, type(e).__name__, site(e))
+                break
+        return {"reproduced": obs is not None, "observed": obs}
     r = run_one(case["draft"], case["schema"], case["instance"], case["entry"])
     return {"reproduced": r is not None, "observed": r}
